@@ -27,6 +27,8 @@ func (e *E2eProcessingLatencyAggregate) UnmarshalJSON(b []byte) error {
 		return err
 	}
 
+	// null entries are dropped: Add() assigns into the entries it merges
+	percentiles := resp.Percentiles[:0]
 	for _, p := range resp.Percentiles {
 		if p == nil {
 			continue
@@ -35,10 +37,11 @@ func (e *E2eProcessingLatencyAggregate) UnmarshalJSON(b []byte) error {
 		p["max"] = p["value"]
 		p["average"] = p["value"]
 		p["count"] = float64(resp.Count)
+		percentiles = append(percentiles, p)
 	}
 
 	e.Count = resp.Count
-	e.Percentiles = resp.Percentiles
+	e.Percentiles = percentiles
 	e.Topic = resp.Topic
 	e.Channel = resp.Channel
 	e.Addr = resp.Addr
